@@ -188,11 +188,14 @@ def run(cfg):
     # which (month, weekday, day-of-month) combinations the transformer refuses is read off by interpreting the function
     # (E-SEQ over the Python ast, the ON field parsed by the real parser) on one-rule policies
     from .genrender import rule as mkrule
-    rej = {1: set(), 12: set()}
+    rej = {1: None, 12: None}
     try:
+      # rules that run through the generated years, and rules that end before them (kept as "the latest rule before")
+      for yfrom, yto in ((2000, 9999), (1990, 1990), (1985, 1998)):
+        rej_y = {1: set(), 12: set()}
         for month in (1, 12):
             for dom in range(-31, 32):
-                r_ = mkrule(2000, 9999, month, 0, 0, 7200, 0, 'S', 'Rule P raw')
+                r_ = mkrule(yfrom, yto, month, 0, 0, 7200, 0, 'S', 'Rule P raw')
                 r_['onDay'] = 'lastMon' if dom == 0 else ('Mon>=%d' % dom if dom > 0 else 'Mon<=%d' % -dom)
                 del r_['onDayOfWeek'], r_['onDayOfMonth']
                 me = PObj(tr, 'Transformer', {'all_removed_policies': {}, 'all_removed_zones': {}, 'all_notable_policies': {}, 'scope': 'extended',
@@ -201,10 +204,13 @@ def run(cfg):
                 if not isinstance(out, dict):
                     raise AnalysisError('%s: the function does not return the map of accepted policies' % tf.loc)
                 if 'P' not in out:
-                    rej[month].add(dom)
+                    rej_y[month].add(dom)
                 elif (out['P'][0].get('onDayOfWeek'), out['P'][0].get('onDayOfMonth')) != (0 if False else 1, dom):
                     raise AnalysisError('%s: ON %s is stored as (weekday %r, day %r), expected (1, %d)' % (
                         tf.loc, r_['onDay'], out['P'][0].get('onDayOfWeek'), out['P'][0].get('onDayOfMonth'), dom))
+        for month in (1, 12):
+            # what is refused for every year range is what the rule can rely on
+            rej[month] = rej_y[month] if rej[month] is None else (rej[month] & rej_y[month])
     except PRaised as r_:
         raise AnalysisError('%s: interpretation raised %s' % (tf.loc, r_.what))
     R.analysed['rejected(dom in January)'] = sorted(rej[1])
